@@ -11,7 +11,7 @@ CHECKS = {
         text="100k (quick) / 3M (thorough) generated layouts x issuer x level x operation x replica behaviours on real nodes; the promise of the level is checked against storage immediately after the call returns, the error counts against the acknowledgements that came back, and later replication after healing (LWW convergence, no version that nobody issued); plus 40k / 1.5M histories in which earlier selections (filling the selector cache) are followed by a join and / or a leave and the operation is judged against the new membership 50 ms - 2.5 s later.",
         note="Same transport/membership/clock hooks as C01; storage failures are injected only outside repair cycles.", ref="3 C06"),
     "C13": dict(engine="E3-cluster", technique="exhaustive enumeration of add/remove sequences (bounded) + random longer sequences, model = set of registered names",
-        text="All 46656 add/remove sequences of length 6 over three services (279936 of length 7 in the thorough tier), 20k random sequences up to length 12, and 20k random sequences over six services with 17 interleaving handler keys, each probed after every step with real clients against a real server state, plus 1600 cases of 10-30 rounds in which 2-3 OS threads add and remove services they own concurrently (sampled schedules).",
+        text="All 46656 add/remove sequences of length 6 over three services (279936 of length 7 in the thorough tier), 20k random sequences up to length 12, and 20k random sequences over six services with 17 interleaving handler keys, each probed after every step with real clients against a real server state, plus 1600 cases of 10-30 rounds in which 2-3 OS threads add and remove services they own concurrently (sampled schedules), plus 60k sequences whose steps are followed by 0-3 generated probes instead of all pairs in a fixed order.",
         note="Server reached through the in-process transport (H-rpc): routing, handler lookup and status encoding are the real code, the socket layer is not exercised.", ref="3 C13"),
     "C16": dict(engine="E3-cluster", technique=PBT + " (model-based: per-delta exactness + sum of deltas vs final snapshot; known finding excluded by signature)",
         text="200k (quick) / 5M (thorough) generated snapshot sequences (joins, leaves, rejoins, address changes, addresses shared or handed over between ids), subscription moments and read patterns on one real node.",
@@ -35,7 +35,7 @@ CHECKS = {
         text="3M (quick) / 300M (thorough) generated replica triples satisfying the statement's precondition by construction; commutativity, associativity, idempotence, schedule independence and lookup agreement are checked on each.",
         note="Replicas are built from operations only (never purged): with purged tombstones the laws do not hold by design, which the statement does not claim (DESIGN.md 3 C03).", ref="3 C03"),
     "C04": dict(engine="E1-pure", technique=PBT + " + exhaustive small-scope enumeration against an LWW reference model",
-        text="6M generated arrival orders per quick run (600M thorough) plus exhaustive enumeration of all arrival sequences of <=3 ops in a small scope, each compared step by step with an independent last-writer-wins model.",
+        text="6M generated arrival orders (0-2 operations delivered twice) per quick run (600M thorough) plus exhaustive enumeration of all arrival sequences of <=3 ops in a small scope, each compared step by step with an independent last-writer-wins model.",
         note="Trusts the harness's LWW model and field-wise Stamp ordering; stamps are drawn >= 1 h after the datacake epoch and inside a 3000 s window (the property's precondition).", ref="3 C04"),
     "C05": dict(engine="E1-pure", technique=PBT + " (exactness oracle for diff + metamorphic 'apply the diff, nothing is left')",
         text="6M (quick) / 400M (thorough) generated replica pairs incl. purged ones and, one case in five, replicas with arbitrary gaps on an exact 1 h grid (stamps exactly on a cut-off); the diff is compared with an independently computed expectation and, inside the repair clause's precondition, applied the way the keyspace actor applies it.",
